@@ -53,7 +53,7 @@ Definition set_sites : list site := [
   ((s "sharepoint2text/parsing/extractors/pdf/pdf_extractor.py"), (s "_TableExtractor._split_compound_words"), (1362)%Z, UMember);
   ((s "sharepoint2text/parsing/extractors/pdf/pdf_extractor.py"), (s "_TableExtractor._split_compound_words"), (1363)%Z, UMember);
   ((s "sharepoint2text/parsing/extractors/pdf/pdf_extractor.py"), (s "_TableExtractor.is_numeric_token"), (1262)%Z, UMember);
-  ((s "sharepoint2text/parsing/extractors/serialization.py"), (s "_deserialize_dataclass"), (196)%Z, UMember);
+  ((s "sharepoint2text/parsing/extractors/serialization.py"), (s "_deserialize_dataclass"), (195)%Z, UMember);
   ((s "sharepoint2text/parsing/extractors/util/omml_to_latex.py"), (s "<module>"), (157)%Z, UMember);
   ((s "sharepoint2text/parsing/extractors/util/zip_context.py"), (s "ZipContext.__init__"), (18)%Z, UMember);
   ((s "sharepoint2text/parsing/router.py"), (s "<module>"), (118)%Z, UMember);
@@ -124,7 +124,6 @@ Definition stream_sites : list stream_site := [
   ((s "sharepoint2text/parsing/extractors/pdf/pdf_extractor.py"), (s "_should_skip_images"), (238)%Z, (s "getbuffer().nbytes"));
   ((s "sharepoint2text/parsing/extractors/plain_extractor.py"), (s "read_plain_text"), (177)%Z, (s "seek"));
   ((s "sharepoint2text/parsing/extractors/plain_extractor.py"), (s "read_plain_text"), (179)%Z, (s "read"));
-  ((s "sharepoint2text/parsing/extractors/plain_extractor.py"), (s "read_plain_text"), (180)%Z, (s "truncate"));
   ((s "sharepoint2text/parsing/extractors/util/encryption.py"), (s "is_ooxml_encrypted"), (17)%Z, (s "seek"));
   ((s "sharepoint2text/parsing/extractors/util/encryption.py"), (s "is_ooxml_encrypted"), (24)%Z, (s "seek"));
   ((s "sharepoint2text/parsing/extractors/util/encryption.py"), (s "is_ooxml_encrypted"), (19)%Z, (s "seek"));
